@@ -126,6 +126,48 @@ class RefilledBlock(object):
         self.layout.render(io, indentation)
 
 
+TABLE_HEADER = ["<b>Name</b>", "Text"]
+
+
+def table_rows():
+    return [["one", LOREM.replace("<b>", "").replace("</b>", "")], ["two", "short"]]
+
+
+class RefilledTable(object):
+    """ONE Table that shows other content in between: before every render it is given another header and other rows of the
+    same shape, rendered aside, and given its own content back through the setters (what it then shows is its content,
+    not what it showed before)"""
+
+    def __init__(self):
+        from clikit.ui.components import Table
+        from clikit.ui.style import TableStyle
+
+        self.table = Table(TableStyle.ascii())
+        self.table.set_header_row(list(TABLE_HEADER))
+        self.table.add_rows(table_rows())
+        self.n = 0
+
+    def render(self, io, indentation=0):
+        from clikit.io import BufferedIO
+
+        self.n += 1
+        t = self.table
+        # the three setters in turn: header alone, header + all rows, header + one row
+        how = self.n % 3
+        t.set_header_row(["A much wider header than before", "T"])
+        if how == 2:
+            t.set_rows([["x", "y"], ["1", "2"]])
+        elif how == 0:
+            t.set_row(1, ["another second row", "z"])
+        t.render(BufferedIO(), indentation)
+        if how == 2:
+            t.set_rows(table_rows())
+        elif how == 0:
+            t.set_row(1, table_rows()[1])
+        t.set_header_row(list(TABLE_HEADER))
+        t.render(io, indentation)
+
+
 class Driver(object):
     """one behaviour: style objects, component instances, interned texts"""
 
@@ -226,10 +268,12 @@ class Driver(object):
             from clikit.ui.help import ApplicationHelp, CommandHelp
             from clikit.ui.style import TableStyle
 
-            if comp == "table":
+            if comp == "table" and inst == 2:
+                c = RefilledTable()
+            elif comp == "table":
                 c = Table(TableStyle.ascii())
-                c.set_header_row(["<b>Name</b>", "Text"])
-                c.add_rows([["one", LOREM.replace("<b>", "").replace("</b>", "")], ["two", "short"]])
+                c.set_header_row(list(TABLE_HEADER))
+                c.add_rows(table_rows())
             elif comp == "labels":
                 c = AlignedLabels()
             elif comp == "block":
